@@ -18,6 +18,7 @@ CONSTANTS = os.path.join(REPO, 'cherab/core/utility/constants.pyx')
 THERMAL_CX = os.path.join(REPO, 'cherab/core/model/plasma/thermal_cx.pyx')
 TRP = os.path.join(REPO, 'cherab/core/model/plasma/total_radiated_power.pyx')
 GAUNT = os.path.join(REPO, 'cherab/core/atomic/gaunt.pyx')
+ELEMENTS = os.path.join(REPO, 'cherab/core/atomic/elements.pyx')
 
 # identifiers of Element objects shared by the harness, the generated table and the Lean driver
 ELEMENT_IDS = ['hydrogen', 'protium', 'deuterium', 'tritium', 'helium', 'helium3', 'lithium', 'beryllium', 'boron',
@@ -96,6 +97,27 @@ def parse_cx_guards(path=THERMAL_CX):
     raise ValueError('donor loop of ThermalCXLine.emission not found')
 
 
+def parse_registry(path=ELEMENTS):
+    """[(variable name, atomic number)] of every module-level `x = Element(...)` / `x = Isotope(..., parent, ...)` of
+    elements.pyx; the harness's ELEMENT_IDS come first (their ids are the list positions), the rest in source order"""
+    z = {}
+    order = []
+    for l in open(path):
+        m = re.match(r"^(\w+)\s*=\s*Element\(\s*'[^']*'\s*,\s*'[^']*'\s*,\s*(\d+)\s*,", l)
+        if m:
+            z[m.group(1)] = int(m.group(2)); order.append(m.group(1)); continue
+        m = re.match(r"^(\w+)\s*=\s*Isotope\(\s*'[^']*'\s*,\s*'[^']*'\s*,\s*(\w+)\s*,\s*\d+\s*,", l)
+        if m:
+            if m.group(2) not in z:
+                raise ValueError('isotope %s of unknown element %s' % (m.group(1), m.group(2)))
+            z[m.group(1)] = z[m.group(2)]; order.append(m.group(1))
+    missing = [n for n in ELEMENT_IDS if n not in z]
+    if missing:
+        raise ValueError('elements %r not found in elements.pyx' % missing)
+    names = ELEMENT_IDS + [n for n in order if n not in ELEMENT_IDS]
+    return [(n, z[n]) for n in names]
+
+
 def parse_trp_hydrogen(path=TRP):
     for l in open(path):
         m = re.match(r'\s*for\s+hyd_isotope\s+in\s*\(([^)]*)\)\s*:', l)
@@ -126,10 +148,12 @@ def generate():
 
     dens, temp = parse_cx_guards()
     hyd = parse_trp_hydrogen()
-    unknown = [h for h in hyd if h not in ELEMENT_IDS]
+    reg = parse_registry()
+    regnames = [n for n, _ in reg]
+    unknown = [h for h in hyd if h not in regnames]
     if unknown:
-        raise ValueError('TotalRadiatedPower sums unknown elements %r; extend ELEMENT_IDS' % unknown)
-    fl = ['/- GENERATED by harness/translators/constants.py from thermal_cx.pyx and total_radiated_power.pyx — do not edit -/',
+        raise ValueError('TotalRadiatedPower sums elements %r that are not in the registry' % unknown)
+    fl = ['/- GENERATED by harness/translators/constants.py from thermal_cx.pyx and total_radiated_power.pyx and\n   the element registry cherab/core/atomic/elements.pyx — do not edit -/',
           'namespace Cherab.Gen.PassiveFlags', '',
           '/-- ThermalCXLine.emission donor loop skips donors with non-positive density -/',
           'def thermalCXDonorDensityGuard : Bool := %s' % ('true' if dens else 'false'),
@@ -138,8 +162,11 @@ def generate():
           '/-- TotalRadiatedPower._populate_cache: `for hyd_isotope in (…)` -/',
           'def trpHydrogenDonors : List String := [%s]' % ', '.join('"%s"' % h for h in hyd),
           '/-- the same as element identifiers (index into `elementNames`) -/',
-          'def trpHydrogenIds : List Nat := [%s]' % ', '.join(str(ELEMENT_IDS.index(h)) for h in hyd),
-          'def elementNames : List String := [%s]' % ', '.join('"%s"' % h for h in ELEMENT_IDS),
+          'def trpHydrogenIds : List Nat := [%s]' % ', '.join(str(regnames.index(h)) for h in hyd),
+          '/-- every element / isotope defined in cherab/core/atomic/elements.pyx; the list position is the element id -/',
+          'def elementNames : List String := [%s]' % ', '.join('"%s"' % n for n in regnames),
+          '/-- atomic number by element id (isotopes: that of their parent element) -/',
+          'def registryZ : List Nat := [%s]' % ', '.join(str(z_) for _, z_ in reg),
           '', 'end Cherab.Gen.PassiveFlags', '']
     lean.write_if_changed(os.path.join(LEAN, 'Cherab', 'Gen', 'PassiveFlags.lean'), '\n'.join(fl))
     return dict(literals=dict(lits), derived=dict(exprs), cx_density_guard=dens, cx_temperature_guard=temp, trp_hydrogen=hyd)
